@@ -642,6 +642,32 @@ func (e *Enc) invoke(fr *Frame, x *ssa.Call, st *State, recv Val, args []Val) {
 	if e.hookInvoke(fr, x, st, recv, args) {
 		return
 	}
+	if ic := e.L.ifaceContract(c.Value.Type(), c.Method.Name()); ic != nil && ic.iter != nil {
+		sig := c.Method.Type().(*types.Signature)
+		names := []string{"self"}
+		for i := 0; i < sig.Params().Len(); i++ {
+			names = append(names, sig.Params().At(i).Name())
+		}
+		callArgs := append([]ssa.Value{c.Value}, c.Args...)
+		if e.callbackLoopG(fr, x, ic.key, names, callArgs, ic, func(s, pre *State) *evalEnv {
+			env := e.typeContractEnv(ic, sig, recv, c.Value.Type(), args[1:], nil, s, pre)
+			env.vars["self"] = SV{t: recv.t(), typ: c.Value.Type()}
+			return env
+		}, st) {
+			e.safetyObl(fr, st, "nilinvoke", x.Pos(), isCallExpr, tb.Not(tb.Eq(recv.t(), tb.NilIface())))
+			return
+		}
+		e.lazyViolation(fr, x, st, "call of "+ic.key+" (iterates a callback)")
+		e.note("iterating call without callback clauses: " + ic.key)
+		for _, a := range args {
+			for _, t := range a.T {
+				e.markEscaped(t, 0)
+			}
+		}
+		e.havocResults(fr, x, "inv_"+c.Method.Name())
+		e.havocAll(st, "invoke "+c.Method.Name()+" with a callback")
+		return
+	}
 	if ic := e.L.ifaceContract(c.Value.Type(), c.Method.Name()); ic != nil {
 		ic.used = true
 		if ic.opts["no-impl-check"] == "true" {
@@ -1758,20 +1784,32 @@ func addrNotStored(a ssa.Value, d int) bool {
 // arbitrary cbidx under E(cbidx) and must re-establish E(cbidx+1) when it returns true (and the `stopped` clauses when
 // it returns false); afterwards E(N) or the stopped clauses hold. Returns false if the call does not have this shape.
 func (e *Enc) callbackLoop(fr *Frame, x *ssa.Call, callee *ssa.Function, con *FuncContract, args []Val, st *State) bool {
+	var names []string
+	for _, p := range callee.Params {
+		names = append(names, p.Name())
+	}
+	return e.callbackLoopG(fr, x, shortFuncName(callee), names, x.Call.Args, con, func(s, pre *State) *evalEnv {
+		return e.envForCall(callee, args, nil, s, pre)
+	}, st)
+}
+
+// callbackLoopG: the common part for static callees and interface methods. names / callArgs: the callee's parameter
+// names and the SSA arguments in the same order (receiver first for methods); mkEnv builds the callee's environment.
+func (e *Enc) callbackLoopG(fr *Frame, x *ssa.Call, calleeName string, names []string, callArgs []ssa.Value, con *FuncContract, mkEnv func(s, pre *State) *evalEnv, st *State) bool {
 	tb := e.tb
 	it := con.iter
 	// which argument is the callback
 	pos := -1
-	for i, p := range callee.Params {
-		if p.Name() == it.param {
+	for i, n := range names {
+		if n == it.param {
 			pos = i
 		}
 	}
-	if pos < 0 || pos >= len(x.Call.Args) {
+	if pos < 0 || pos >= len(callArgs) {
 		return false
 	}
 	var mc *ssa.MakeClosure
-	v := x.Call.Args[pos]
+	v := callArgs[pos]
 	for mc == nil {
 		switch u := v.(type) {
 		case *ssa.MakeClosure:
@@ -1815,14 +1853,14 @@ func (e *Enc) callbackLoop(fr *Frame, x *ssa.Call, callee *ssa.Function, con *Fu
 	}
 	// the callee's own preconditions
 	pre := st.clone()
-	cenv0 := e.envForCall(callee, args, nil, st, &pre)
+	cenv0 := mkEnv(st, &pre)
 	for k, cl := range con.requires {
 		t, err := cenv0.evalBool(cl.expr)
 		if err != nil {
-			e.contractError(fr, "callpre:"+shortFuncName(callee), err)
+			e.contractError(fr, "callpre:"+calleeName, err)
 			continue
 		}
-		q := e.oblige("callpre", shortFuncName(callee)+"."+clauseLabel("requires", k, cl)+":"+label, st, t, x.Pos(), e.inputVals()...)
+		q := e.oblige("callpre", calleeName+"."+clauseLabel("requires", k, cl)+":"+label, st, t, x.Pos(), e.inputVals()...)
 		q.Text = cl.text
 	}
 	nT, err := cenv0.evalAny(it.count)
@@ -1904,7 +1942,7 @@ func (e *Enc) callbackLoop(fr *Frame, x *ssa.Call, callee *ssa.Function, con *Fu
 			}
 		}
 	}
-	e.modelled("function literals passed to an iterating function are verified as loop bodies (callee contract `iterates`): " + shortFuncName(callee))
+	e.modelled("function literals passed to an iterating function are verified as loop bodies (callee contract `iterates`): " + calleeName)
 	// the enclosing function's frame (assigns clause) is carried through the iteration like through a loop
 	frameRegs := e.loopFrameRegs(fr, ws)
 	if len(frameRegs) > 0 {
@@ -1929,7 +1967,7 @@ func (e *Enc) callbackLoop(fr *Frame, x *ssa.Call, callee *ssa.Function, con *Fu
 		}
 	}
 	// the arguments of this call of the literal
-	cenv := e.envForCall(callee, args, nil, &iterSt, &pre)
+	cenv := mkEnv(&iterSt, &pre)
 	cenv.vars["cbidx"] = SV{t: idx, typ: types.Typ[types.Int]}
 	var bargs []Val
 	for i, ax := range it.args {
@@ -2005,7 +2043,7 @@ func (e *Enc) callbackLoop(fr *Frame, x *ssa.Call, callee *ssa.Function, con *Fu
 	}
 	e.assume(st.reach, tb.Ite(stopped, stopInv, doneInv))
 	if len(e.tupleTypes(x.Type())) > 0 {
-		e.havocResults(fr, x, "r_"+callee.Name())
+		e.havocResults(fr, x, "r_"+sanitize(calleeName))
 	} else {
 		fr.vals[x] = Val{T: []*Term{tb.True()}}
 	}
